@@ -113,12 +113,15 @@ func ArrayConcat(r *Realm, this Value, args []Value) Value {
 
 // ArrayJoin is 15.4.4.5.
 func ArrayJoin(r *Realm, this Value, args []Value) Value {
-	O := r.ToObject(this)        // 1
-	lenVal := r.Get(O, "length") // 2
-	length := r.ToUint32(lenVal) // 3
+	O := r.ToObject(this) // 1
 	separator := arg(args, 0)
 	sep := ","
-	if separator.K != Undefined { // 4-5
+	if r.Quirk.JoinSeparatorFirst && separator.K != Undefined {
+		sep = r.ToString(separator)
+	}
+	lenVal := r.Get(O, "length")                                 // 2
+	length := r.ToUint32(lenVal)                                 // 3
+	if !r.Quirk.JoinSeparatorFirst && separator.K != Undefined { // 4-5
 		sep = r.ToString(separator)
 	}
 	if length == 0 { // 6
@@ -188,6 +191,11 @@ func ArrayReverse(r *Realm, this Value, _ []Value) Value {
 			r.Put(O, lowerP, upperValue, true)
 			r.Put(O, upperP, lowerValue, true)
 		case !lowerExists && upperExists: // i
+			if r.Quirk.ReverseDeleteFirst {
+				r.Delete(O, upperP, true)
+				r.Put(O, lowerP, upperValue, true)
+				break
+			}
 			r.Put(O, lowerP, upperValue, true)
 			r.Delete(O, upperP, true)
 		case lowerExists && !upperExists: // j
@@ -409,10 +417,10 @@ func ArrayIndexOf(r *Realm, this Value, args []Value) Value {
 
 // ArrayLastIndexOf is 15.4.4.15.
 func ArrayLastIndexOf(r *Realm, this Value, args []Value) Value {
-	O := r.ToObject(this)                         // 1
-	lenValue := r.Get(O, "length")                // 2
-	length := float64(r.ToUint32(lenValue))       // 3
-	if length == 0 && !r.Quirk.LastIndexOfClamp { // 4
+	O := r.ToObject(this)                                                                // 1
+	lenValue := r.Get(O, "length")                                                       // 2
+	length := float64(r.ToUint32(lenValue))                                              // 3
+	if length == 0 && !r.Quirk.LastIndexOfClamp && !r.Quirk.LastIndexOfConvertsOnEmpty { // 4
 		return Num(-1)
 	}
 	n := length - 1 // 5
@@ -449,11 +457,14 @@ func ArrayLastIndexOf(r *Realm, this Value, args []Value) Value {
 }
 
 func iterPrologue(r *Realm, this Value, args []Value) (O *Obj, length float64, callbackfn, T Value) {
-	O = r.ToObject(this)                   // 1
+	O = r.ToObject(this) // 1
+	callbackfn = arg(args, 0)
+	if r.Quirk.CallableBeforeLength && !IsCallable(callbackfn) {
+		throwType()
+	}
 	lenValue := r.Get(O, "length")         // 2
 	length = float64(r.ToUint32(lenValue)) // 3
-	callbackfn = arg(args, 0)
-	if !IsCallable(callbackfn) { // 4
+	if !IsCallable(callbackfn) {           // 4
 		throwType()
 	}
 	T = arg(args, 1) // 5
@@ -543,11 +554,14 @@ func ArrayFilter(r *Realm, this Value, args []Value) Value {
 
 // ArrayReduce is 15.4.4.21.
 func ArrayReduce(r *Realm, this Value, args []Value) Value {
-	O := r.ToObject(this)                   // 1
+	O := r.ToObject(this) // 1
+	callbackfn := arg(args, 0)
+	if r.Quirk.CallableBeforeLength && !IsCallable(callbackfn) {
+		throwType()
+	}
 	lenValue := r.Get(O, "length")          // 2
 	length := float64(r.ToUint32(lenValue)) // 3
-	callbackfn := arg(args, 0)
-	if !IsCallable(callbackfn) { // 4
+	if !IsCallable(callbackfn) {            // 4
 		throwType()
 	}
 	if length == 0 && len(args) < 2 { // 5
@@ -587,11 +601,14 @@ func ArrayReduce(r *Realm, this Value, args []Value) Value {
 
 // ArrayReduceRight is 15.4.4.22.
 func ArrayReduceRight(r *Realm, this Value, args []Value) Value {
-	O := r.ToObject(this)                   // 1
+	O := r.ToObject(this) // 1
+	callbackfn := arg(args, 0)
+	if r.Quirk.CallableBeforeLength && !IsCallable(callbackfn) {
+		throwType()
+	}
 	lenValue := r.Get(O, "length")          // 2
 	length := float64(r.ToUint32(lenValue)) // 3
-	callbackfn := arg(args, 0)
-	if !IsCallable(callbackfn) { // 4
+	if !IsCallable(callbackfn) {            // 4
 		throwType()
 	}
 	if length == 0 && len(args) < 2 { // 5
